@@ -132,6 +132,65 @@ func stringConsts(files []*ast.File) map[string]string {
 	return out
 }
 
+// intConsts: package-level integer constants with simple constant expressions
+func evalInt(e ast.Expr, env map[string]int64) (int64, bool) {
+	switch x := e.(type) {
+	case *ast.BasicLit:
+		if x.Kind == token.INT {
+			v, err := strconv.ParseInt(x.Value, 0, 64)
+			return v, err == nil
+		}
+	case *ast.Ident:
+		v, ok := env[x.Name]
+		return v, ok
+	case *ast.ParenExpr:
+		return evalInt(x.X, env)
+	case *ast.BinaryExpr:
+		a, ok1 := evalInt(x.X, env)
+		b, ok2 := evalInt(x.Y, env)
+		if !ok1 || !ok2 {
+			return 0, false
+		}
+		switch x.Op {
+		case token.SHL:
+			return a << uint(b), true
+		case token.MUL:
+			return a * b, true
+		case token.ADD:
+			return a + b, true
+		case token.SUB:
+			return a - b, true
+		}
+	}
+	return 0, false
+}
+
+func intConsts(files []*ast.File) map[string]int64 {
+	out := map[string]int64{}
+	for _, f := range files {
+		for _, d := range f.Decls {
+			g, ok := d.(*ast.GenDecl)
+			if !ok || g.Tok != token.CONST {
+				continue
+			}
+			for _, sp := range g.Specs {
+				vs, ok := sp.(*ast.ValueSpec)
+				if !ok {
+					continue
+				}
+				for i, n := range vs.Names {
+					if i < len(vs.Values) {
+						if v, ok := evalInt(vs.Values[i], out); ok {
+							out[n.Name] = v
+						}
+					}
+				}
+			}
+		}
+	}
+	return out
+}
+
 func failFact(last ast.Expr, consts map[string]string) string {
 	cs := callees(last)
 	st := idents(last, "StatusCode")
@@ -326,6 +385,10 @@ func stmtFact(st ast.Stmt, consts map[string]string) []string {
 			var cs []string
 			for _, e := range cl.List {
 				n := exprStr(e)
+				if bl, ok := e.(*ast.BasicLit); ok && bl.Kind == token.STRING {
+					n, _ = strconv.Unquote(bl.Value)
+					n = "lit:" + n
+				}
 				if v, ok := consts[n]; ok {
 					n = v
 				}
@@ -433,6 +496,15 @@ func genFacts(repo string) string {
 	for _, k := range names {
 		fmt.Fprintf(&out, "Definition c_%s : bytes := b %s.\n", k, coqStr(consts[k]))
 	}
+	ints := intConsts(all)
+	inames := []string{}
+	for k := range ints {
+		inames = append(inames, k)
+	}
+	sort.Strings(inames)
+	for _, k := range inames {
+		fmt.Fprintf(&out, "Definition ci_%s : Z := (%d)%%Z.\n", k, ints[k])
+	}
 	out.WriteString("\n")
 	chainFacts(files["sso.go"], "ssoHandleFunc", "sso", consts, &out)
 	chainFacts(files["logout.go"], "logoutHandleFunc", "logout", consts, &out)
@@ -454,5 +526,6 @@ func genFacts(repo string) string {
 	straightFacts(files["provider.go"], "GetMetadata", "providerGetMetadata_seq", consts, &out)
 	straightFacts(files["metadata.go"], "metadataHandle", "metadataHandle_seq", consts, &out)
 	straightFacts(files["identityprovider.go"], "certificateHandleFunc", "certificateHandle_seq", consts, &out)
+	straightFacts(files["xml.go"], "InflateAndDecode", "inflateAndDecode_seq", consts, &out)
 	return out.String()
 }
